@@ -105,14 +105,17 @@ func verifC36Sign(secret ed25519PrivateKey, data []byte) (sig ed25519Signature) 
 }
 
 func verifC36Verify(public ed25519PublicKey, data []byte, sig ed25519Signature) bool {
-	var seed [32]byte
-	found := false
+	// (register-only loop body: the engine turns it into a selection, no forks)
+	idx, found := 0, false
 	for i := range verifC36Keys {
 		if verifC36Keys[i].pk == public {
-			seed = verifC36Keys[i].seed
-			found = true
+			idx, found = i, true
 		}
 	}
+	if len(verifC36Keys) == 0 {
+		return false
+	}
+	seed := verifC36Keys[idx].seed
 	want := verifC36SignSeed(seed[:], data)
 	return found && want == sig
 }
@@ -165,6 +168,10 @@ func verifC36ID(label string, dil uint64) OneTimeSignatureIdentifier {
 }
 
 func verifC36Setup(ndel int, uf bool) *verifC36World {
+	return verifC36SetupDil(ndel, uf, 1, vr.Param(2, 4))
+}
+
+func verifC36SetupDil(ndel int, uf bool, dilLo, dilHi int) *verifC36World {
 	verifC36UF = uf
 	verifC36Keys = nil
 	verifC36Rand.n = 0
@@ -172,7 +179,7 @@ func verifC36Setup(ndel int, uf bool) *verifC36World {
 	w.start = vr.U64("start")
 	w.nb = uint64(vr.Param(2, 3))
 	vr.Assume(w.start < ^uint64(0)-8) // [start, start+nb) does not wrap
-	w.dil = uint64(1 + vr.Choice("dilution", vr.Param(2, 4)))
+	w.dil = uint64(dilLo + vr.Choice("dilution", dilHi-dilLo+1))
 	w.s = GenerateOneTimeSignatureSecretsRNG(w.start, w.nb, verifC36Rand)
 	w.v = w.s.OneTimeSignatureVerifier
 	names := []string{"cur1", "cur2", "cur3"}
@@ -290,15 +297,12 @@ func (a *verifC36Adversary) learnKey(k ephemeralSubkey) {
 func (a *verifC36Adversary) signature(label string, data []byte) ed25519Signature {
 	held := a.sigs[verifC36Pick(label+".held", len(a.sigs))]
 	seed := a.seeds[verifC36Pick(label+".key", len(a.seeds))]
-	made := verifC36SignSeed(seed[:], data)
-	if vr.Bool(label + ".compute") {
-		held = made
-	}
-	return held
+	cands := [2]ed25519Signature{held, verifC36SignSeed(seed[:], data)}
+	return cands[verifC36Pick(label+".compute", 2)]
 }
 
-func verifC36Compromise(ndel int) {
-	w := verifC36Setup(ndel, false)
+func verifC36Compromise(ndel int, dilLo, dilHi int) {
+	w := verifC36SetupDil(ndel, false, dilLo, dilHi)
 	adv := &verifC36Adversary{}
 	own, ownSK := verifC36GenKey(nil)
 	adv.learnKey(ephemeralSubkey{PK: own, SK: ownSK})
@@ -327,7 +331,12 @@ func verifC36Compromise(ndel int) {
 }
 
 //verif:harness prop=C36 reach=done,forged-live unwind=12 budget=200 thorough.budget=2400
-func VerifC36CompromiseOneDelete() { verifC36Compromise(1) }
+func VerifC36CompromiseOneDelete() { verifC36Compromise(1, 1, vr.Param(2, 4)) }
+
+// (two advances: split by key dilution so that the halves run in parallel)
+//
+//verif:harness prop=C36 reach=done,forged-live unwind=12 budget=200 thorough.budget=2400
+func VerifC36CompromiseTwoDeletesDil1() { verifC36Compromise(2, 1, 1) }
 
 //verif:harness prop=C36 reach=done,forged-live unwind=12 budget=200 thorough.budget=2400
-func VerifC36CompromiseTwoDeletes() { verifC36Compromise(2) }
+func VerifC36CompromiseTwoDeletesDil2() { verifC36Compromise(2, 2, vr.Param(2, 3)) }
